@@ -656,7 +656,11 @@ func ResolveSpecSource(ctx context.Context, specSource interface{}) (*crew.SpecS
 		return &src, &spec, nil
 	}
 
-	return nil, nil, nil
+	// A source that gives neither a spec nor a place to get one
+	// from (a name only, say): there is no spec, but the source is
+	// what it is, and the machine keeps it (it is what the crew
+	// reports for the machine, too).
+	return &src, nil, nil
 }
 
 // DefaultState returns a state at "state" with empty bindings.
